@@ -105,13 +105,15 @@ PROPS["C08"] = dict(
     level_note=SYMEX_NOTE + "That the kernel enforces a limit it was given is outside (contract).",
     explanation="PrepareRLimit/getRlimit, Tracer.checkUsage, ptraceHandle.handle (signal stops), unshare.Run usage check executed symbolically; oracle in harness.",
     bounds={"RLimits": "all 2^(7*64+1) records", "rusage": "sec < 2^33, usec < 10^6, maxrss < 2^53", "stop signals": "1..64 except SIGTRAP"},
-    outside=["kernel enforcement of rlimits", "prlimit64 loop in the child and the output pipe collector (see C04/C07 machinery; not yet claimed here)"],
+    outside=["kernel enforcement of rlimits", "output volumes beyond 6 bytes / caps beyond 2 (a drain threshold such as 1 MiB is not reachable within the bound)"],
     assumptions=[],
     harnesses=[
         dict(pkg="./pkg/rlimit", run="^VerifC08_PrepareRLimit$", replay="native", reach=["configured", "unconfigured"]),
         dict(pkg=PT, run="^VerifC08_CheckUsage$", replay="model", reach=["mle", "tle", "within", "both"]),
         dict(pkg=PT, run="^VerifC08_PtraceLimitSignals$", replay="model", reach=["xcpu", "xfsz", "other"]),
         dict(pkg=US, run="^VerifC08_UnshareUsage$", replay="model", reach=["over-limit", "exited", "signaled"]),
+        dict(pkg=FE, run="^VerifC08_LimitsInForce$", replay="model", preempt=0, reach=["execed", "configured", "inherited"]),
+        dict(pkg="./pkg/pipe", run="^VerifC08_OutputCollector$", replay="model", preempt=2, timeout=1500, reach=["done-signalled", "over-cap"]),
     ],
 )
 
